@@ -381,6 +381,11 @@ func (c20) Run(c *core.Ctx) {
 		{"NoResolvePaths", func(o *loader.Options) { o.ResolvePaths = false }},
 		{"SkipDefaultValues", func(o *loader.Options) { o.SkipDefaultValues = true }},
 		{"SkipValidation", func(o *loader.Options) { o.SkipValidation = true }},
+		{"KnownExtensions", func(o *loader.Options) {
+			o.KnownExtensions = map[string]any{"x-known": struct {
+				A string `yaml:"a" json:"a"`
+			}{}}
+		}},
 		{"all-skips", func(o *loader.Options) {
 			o.SkipResolveEnvironment, o.SkipNormalization, o.SkipConsistencyCheck, o.SkipDefaultValues, o.SkipValidation = true, true, true, true, true
 			o.ResolvePaths = false
